@@ -1143,6 +1143,15 @@ func (fr *Frame) runAnchors(keys []string, when string, st *State, reach string,
 			if s, ok := in.(*ssa.Store); ok {
 				env.vars["value"] = fr.val(s.Val)
 			}
+			if r, ok := in.(*ssa.Return); ok {
+				// the values being returned at THIS return statement
+				for i, rv := range r.Results {
+					env.vars[fmt.Sprintf("result%d", i)] = fr.val(rv)
+				}
+				if len(r.Results) == 1 {
+					env.vars["result"] = fr.val(r.Results[0])
+				}
+			}
 		}
 		return env
 	}
@@ -1197,7 +1206,13 @@ func (fr *Frame) runAnchors(keys []string, when string, st *State, reach string,
 			g.note("ghost update at %s cannot be evaluated: %v", gh.Anchor, err)
 			continue
 		}
-		st.h["Ghost:"+gv.Name] = g.define("Ghost:"+gv.Name, cur.Sort, v.T)
+		if strings.HasPrefix(cur.Sort, "(Array") {
+			// sets and maps: a declared constant + equality, not a macro — the value may contain ite/store and must stay
+			// usable inside quantifier patterns (`{ in(x, ghostSet) }`)
+			st.h["Ghost:"+gv.Name] = g.bindConst("Ghost:"+gv.Name, cur.Sort, v.T)
+		} else {
+			st.h["Ghost:"+gv.Name] = g.define("Ghost:"+gv.Name, cur.Sort, v.T)
+		}
 		g.declared["anchor-used:"+fc.Key+":"+gh.Anchor] = true
 	}
 }
